@@ -3,6 +3,7 @@ import Lean.Data.Json
 import SqlLineage.Model.Runner
 import SqlLineage.IO.Graph
 import SqlLineage.Spec.Tables
+import SqlLineage.Spec.Columns
 
 namespace SqlLineage.IO.Sql
 open Lean SqlLineage Ast
@@ -99,6 +100,24 @@ def stmtOf : Json → Except String Stmt
     let cols ← cols.toList.mapM (fun c => match c with | .arr #[.str n, .str t] => pure (n, t) | _ => throw "bad column def")
     pure (.createTable (← strs tgt) (← bool ine) cols)
   | .arr #[.str "create_table_like", tgt, src] => do pure (.createTableLike (← strs tgt) (← strs src))
+  | .arr #[.str "update", tgt, al, .arr sets, .arr frm, wh] => do
+    let sets ← sets.toList.mapM (fun x => match x with
+      | .arr #[t, e] => do pure (SetClause.mk (← strs t) (← exprOf e)) | _ => throw "bad set clause")
+    pure (.update (← strs tgt) (← optStr al) sets (← frm.toList.mapM fromExprOf) (← optExprOf wh))
+  | .arr #[.str "merge", tgt, ta, src, on, .arr ups, .arr ins] => do
+    let src ← match src with
+      | .arr #[.str "table", ps, a] => do pure (MergeSource.table (← strs ps) (← optStr a))
+      | .arr #[.str "derived", q, a] => do pure (MergeSource.derived (← queryOf q) (← optStr a))
+      | _ => throw "bad merge source"
+    let ups ← ups.toList.mapM (fun u => match u with
+      | .arr sets => sets.toList.mapM (fun x => match x with
+          | .arr #[t, e] => do pure (SetClause.mk (← strs t) (← exprOf e)) | _ => throw "bad set clause")
+      | _ => throw "bad update clause")
+    let ins ← ins.toList.mapM (fun i => match i with
+      | .arr #[.arr cols, .arr vals] => do pure (MergeInsert.mk (← cols.toList.mapM strs) (← vals.toList.mapM exprOf))
+      | _ => throw "bad insert clause")
+    pure (.merge (← strs tgt) (← optStr ta) src (← exprOf on) ups ins)
+  | .arr #[.str "copy", tgt, .str path] => do pure (.copy (← strs tgt) path)
   | .arr #[.str "drop", v, ie, tgt] => do pure (.drop (← bool v) (← bool ie) (← strs tgt))
   | .arr #[.str "alter_rename", x, y] => do pure (.alterRename (← strs x) (← strs y))
   | .arr #[.str "rename_table", .arr ps] => do
@@ -201,7 +220,10 @@ def handleSql (j : Json) : Except String Json := do
   let env : Walk.Env := ⟨c.cfgDefault, c.importDefault, Holder.ProvView.none, c.ro, 0⟩
   let spec := ss.map (fun s => Json.mkObj [
     ("reads", jstrs (isort (Spec.reads env s))), ("writes", jstrs (isort (Spec.writes env s))),
-    ("deviations", jstrs (Spec.deviations s))])
+    ("deviations", jstrs (Spec.deviations s)),
+    ("colflow", match Spec.colflow env s with
+      | some ps => .arr (ps.map (fun p => Json.arr #[.str p.1, .str p.2])).toArray
+      | none => .null)])
   pure <| Json.mkObj [("sql", jstrs rendered), ("types", jstrs (ss.map Walk.stmtType)), ("out", out), ("spec", .arr spec.toArray)]
 
 /-- `{"cmd":"render","stmts":[..],"upper":bool}` -/
